@@ -172,7 +172,7 @@ def bytes_desc(m, b):
         return {'pack': [b.fmt, m.eval(b.e, model_completion=True).as_long()]}
     if b.kind == 'digest':
         return {'digest': [bytes_desc(m, p) for p in b.parts]}
-    if b.kind == 'raw':
+    if b.kind in ('raw', 'keyraw'):
         return {'bytes': conc(m, b).hex()}
     raise ValueError('bytes_desc ' + b.kind)
 
